@@ -460,4 +460,51 @@ func runC15(r *Run) {
 		})
 		r.atLeast("session methods that wipe the data", n, 1)
 	})
+
+	r.rule("R9", "the id kept in the request's locals is one generated during this request: every write of the locals id key in the package passes the KeyGenerator result (getSession reads an id found there as newly issued and stamps a new absolute deadline) (E3, who-may-write)", func() {
+		n, nk := 0, 0
+		keySeen := map[ssa.Instruction]bool{}
+		r.P.AllFuncs(sessPkg, func(f *ssa.Function) {
+			for _, c := range callsIn(f, false) {
+				if !strings.HasSuffix(c.Name, ".Ctx).Locals") || len(c.Common.Args) < 2 {
+					continue
+				}
+				kv := stripValue(c.Common.Args[0])
+				if !strings.HasSuffix(kv.Type().String(), "session.sessionIDKey") {
+					continue
+				}
+				// the key names the store: an id generated by one store is not another store's id
+				if !keySeen[c.Instr] {
+					keySeen[c.Instr] = true
+					nk++
+					perStore := asConst(kv) == nil && len(f.Params) > 0 && dependsOn(kv, func(v ssa.Value) bool { return v == ssa.Value(f.Params[0]) }) != nil
+					r.check(perStore, fmt.Sprintf("%s:locals-id-key#%d:per-store", short(f.String()), nk), r.pos(c.Instr), "the locals key is built from the store",
+						"the id a store generated for the request is kept under a key shared by all stores: a second store serving the same request looks that id up instead of its own cookie, finds nothing and hands out an empty session although a valid one was presented")
+				}
+				// the variadic value: a slice literal of one element, or nil for a read
+				var vals []ssa.Value
+				if sl, ok := c.Common.Args[len(c.Common.Args)-1].(*ssa.Slice); ok {
+					if al, ok := sl.X.(*ssa.Alloc); ok {
+						for _, st := range storesInto(al) {
+							vals = append(vals, st.Val)
+						}
+					}
+				}
+				if len(vals) == 0 {
+					continue
+				}
+				n++
+				okGen := true
+				for _, v := range vals {
+					cc, isCall := stripValue(v).(*ssa.Call)
+					if !isCall || !isKeyGen(cc) {
+						okGen = false
+					}
+				}
+				r.check(okGen, short(f.String())+":locals-id-is-generated", r.pos(c.Instr), "the stored id is the KeyGenerator result",
+					"an id that was not generated in this request is put under the locals id key: the next Store.Get of the request takes the session for newly issued and gives it a new absolute deadline, so a session in use never reaches its absolute timeout (and another store of the same request is handed an id that is not its own)")
+			}
+		})
+		r.atLeast("writes of the locals id key", n, 1)
+	})
 }
